@@ -30,8 +30,11 @@ def cases(draw, tier):
         sc = draw(gen.state_case(types=[t], n=(8, 9), nh=(1, 3), scales=[0.05, 0.5, 1.0], bound=40.0))
         sc["large"] = True
     else:
-        sc = draw(gen.state_case(types=[t], n=(1, nmax), nh=(1, 4), na=(1, 3), scales=[0.05, 0.5, 0.5, 2.0, 2.0, 2.0, 8.0, 20.0], bound=60.0))
+        sc = draw(gen.state_case(types=[t], n=(1, nmax), nh=(1, 4), na=(1, 3), scales=[0.05, 0.5, 0.5, 2.0, 2.0, 2.0, 8.0, 20.0], bound=60.0,
+                                unitaries=True))        # half of the complex/mixed states carry user-added / overridden single-qubit unitaries
     n = sc["n"]
+    if sc.get("unitaries") and draw(st.booleans()):
+        sc["unitaries2"] = {k: [draw(gen.ANGLE) for _ in range(4)] for k in sc["unitaries"]}
     polarised = draw(st.integers(0, 7)) == 0
     if polarised and not sc.get("large"):
         # value regime: strongly polarised amplitude network (visible biases of magnitude 12..30, either sign) - outcome probabilities
@@ -44,7 +47,7 @@ def cases(draw, tier):
     if sc.get("large"):
         allb = ["Z" * n, "X" + "Z" * (n - 1), "Z" * (n - 2) + "YX", "XY" + "Z" * (n - 2)]
     else:
-        allb = gen.basis_strings(n)
+        allb = gen.basis_strings(n, "XYZ" + "".join(sorted(k for k in (sc.get("unitaries") or {}) if k not in "XYZ")))     # user letters may appear in measurement bases
     rot = [b for b in allb if set(b) != {"Z"}]
     for i in range(N):
         if t == "positive":
@@ -214,6 +217,20 @@ def check(case):
             check_round(case, state)
         except PropertyViolation as v:
             raise PropertyViolation("after-second-inplace-update:" + v.bucket, "after a second in-place parameter update (back to the first values): " + v.message, v.detail)
+    if case["state"].get("unitaries2"):
+        # history: the state loads a file written by a twin with the same parameters but OTHER user unitaries for the same letters;
+        # from then on gradients in rotated bases must follow the loaded dictionary
+        import io
+        sc3 = dict(case["state"], unitaries=case["state"]["unitaries2"])
+        twin = gen.build_state(sc3)
+        buf = io.BytesIO()
+        twin.save(buf)
+        buf.seek(0)
+        state.load(buf)
+        try:
+            check_round(dict(case, state=sc3), state)
+        except PropertyViolation as v:
+            raise PropertyViolation("after-load-other-unitaries:" + v.bucket, "after load() of a file carrying other user unitaries: " + v.message, v.detail)
     return r
 
 
@@ -267,6 +284,29 @@ def check_round(case, state):
         same(alias, full, "PositiveWaveFunction.compute_exact_grads disagrees with compute_exact_gradients")
         same(state.gradient(samples.clone(), "ignored", extra=1), gs, "PositiveWaveFunction.gradient with ignored extras differs")
         same(state.positive_phase_gradients(samples.clone(), bases), pp, "PositiveWaveFunction.positive_phase_gradients with ignored extras differs")
+    else:
+        # the documented bases=None route (reference-basis data): same as spelling the all-Z bases out
+        zi = [i for i, (b, _) in enumerate(rows) if set(b) == {"Z"}][:40]
+        if zi:
+            sz, bz = samples[zi], bases[zi]
+            same(state.gradient(sz.clone()), state.gradient(sz.clone(), bases=bz), "gradient(samples) without bases differs from gradient with all-Z bases")
+            same(state.positive_phase_gradients(sz.clone()), state.positive_phase_gradients(sz.clone(), bases_batch=bz),
+                 "positive_phase_gradients(samples) without bases differs from the all-Z bases form")
+            same(state.compute_exact_gradients(sz.clone(), space), state.compute_exact_gradients(sz.clone(), space, bases_batch=bz),
+                 "compute_exact_gradients(samples, space) without bases differs from the all-Z bases form")
+    # the per-batch training entry point called directly, with the SAME tensor as positive and negative batch: positive phase of the
+    # batch as given minus the mean energy gradient of the chain end states (replayed under the same torch seed); inputs untouched
+    if N <= 40:
+        kk = 1 + (case["split"] % 2)
+        sb = samples.clone()
+        torch.manual_seed(1000 + case["split"])
+        vk = state.rbm_am.gibbs_steps(kk, sb.clone())
+        torch.manual_seed(1000 + case["split"])
+        cb = state.compute_batch_gradients(kk, sb, sb, *([bases] if t != "positive" else []))
+        require(torch.equal(sb, samples), "compute_batch_gradients:inputs-mutated", "compute_batch_gradients modified the batch it was given")
+        want_cb = [x.clone() if isinstance(x, torch.Tensor) else x for x in pp]
+        want_cb[0] = want_cb[0] - state.rbm_am.effective_energy_gradient(vk) / float(N)
+        same(cb, want_cb, "compute_batch_gradients(k, batch, batch) != positive phase of the batch minus mean energy gradient of the chain end states")
     now = [p.data for net in state.networks for p in getattr(state, net).parameters()]
     require(all(torch.equal(a, b) for a, b in zip(keep, now)), "params-mutated", "computing gradients changed a model parameter")
 
@@ -276,7 +316,7 @@ def check_round(case, state):
     else:
         nt = len(bs) >= 2 and any("Y" in b for b in bs)
     return {"nontrivial": nt and gen.all_biases_nonzero(sc),
-            "labels": gen.arch_label(sc) + [f"N={N}" if N <= 8 else "N>=120(big batch)"] + (["has_Y"] if any("Y" in b for b in bs) else []) + (["repeated_basis"] if len(bs) < N else [])}
+            "labels": gen.arch_label(sc) + (["user_unitaries"] if sc.get("unitaries") else []) + [f"N={N}" if N <= 8 else "N>=120(big batch)"] + (["has_Y"] if any("Y" in b for b in bs) else []) + (["repeated_basis"] if len(bs) < N else [])}
 
 
 SUBCHECKS = [Sub("nll_gradients", check, strategy=lambda tier: cases(tier), quick=640, thorough=15000)]
